@@ -33,4 +33,7 @@ def run(P, R, L):
     R.clause("GRD-34", "the batch decoder reads exactly the number of operations stored in the batch header (a truncated batch is an error, not a shorter batch)")
     K.grd34_batch_loop_bounded_by_count(P, R, L)
     K.grd33_decoder_reports_consumed_bytes(P, R, L)
+    from . import blind
+    R.clause("ORD-23", "a completely read log fragment is counted in the reader's cursor and block offset before it is parsed: a fragment that fails its checksum costs that record, not the reader's alignment")
+    R.once(blind.ord23_reader_position_follows_the_file, P, R, L)
     R.not_decided += ["detection probability", "behaviour for a concrete flipped byte"]
